@@ -14,6 +14,7 @@ TRUSTED = ['SHA-256 parameter (BU/Crypto/Sha256.lean, checked against hashlib); 
 ASSUMPTIONS = ['CurveLaws (hypothesis of sign_never_fails only)']
 N = 0xFFFFFFFFFFFFFFFFFFFFFFFFFFFFFFFEBAAEDCE6AF48A03BBFD25E8CD0364141
 P = 0xFFFFFFFFFFFFFFFFFFFFFFFFFFFFFFFFFFFFFFFFFFFFFFFFFFFFFFFEFFFFFC2F
+P_FIELD = P
 
 
 def param_validation(ctx):
@@ -93,6 +94,42 @@ def cases(ctx):
     yield Case(f'schnorr_verify {hx(bytes(32))} {hx(bytes(33))} {hx(bytes(64))}', 'm', nontrivial=True, tag='verify-badlen', domain=False)
     for sk in (1, N - 1, rng.randrange(1, N), 0, N):
         yield Case(f'full_pubkey {hx(sk.to_bytes(32, "big"))}', 'm', nontrivial=True, tag='pubkey')
+    yield from curve_cases(ctx)
+
+
+def pts(P):
+    return '0' if P is None else f'1 {P[0]} {P[1]}'
+
+
+def curve_cases(ctx):
+    """the curve arithmetic of schnorr.py against the *generated* code (tier T): point_add / point_mul / lift_x / has_even_y on
+    points incl. infinity, P + P, P + (-P), scalars 0, 1, n-1, n, n+1 and beyond 2^256 (bits above 255 are ignored by the loop),
+    x on and off the curve, x >= p"""
+    import coincurve
+    rng = ctx.rng
+    def mulG(k):
+        b = coincurve.PrivateKey((k % N).to_bytes(32, 'big')).public_key.format(compressed=False)
+        return (int.from_bytes(b[1:33], 'big'), int.from_bytes(b[33:], 'big'))
+    ks = [1, 2, 3, N - 1, N - 2] + [rng.randrange(1, N) for _ in range(ctx.n(6, 60))]
+    P = [mulG(k) for k in ks]
+    neg = lambda Q: (Q[0], (P_FIELD - Q[1]) % P_FIELD)
+    pairs = [(None, None), (None, P[0]), (P[0], None), (P[0], P[0]), (P[0], neg(P[0])), (P[3], P[0]), (P[1], P[2])]
+    pairs += [(rng.choice(P), rng.choice(P)) for _ in range(ctx.n(10, 200))]
+    pairs += [(Q, Q) for Q in P[5:5 + ctx.n(3, 30)]] + [(Q, neg(Q)) for Q in P[5:5 + ctx.n(3, 30)]]
+    for A, B in pairs:
+        ctx.count('gen-pt_add')
+        yield Case(f'pt_add {pts(A)} {pts(B)}', 'g', nontrivial=True, tag='gen-curve')
+    scalars = [0, 1, 2, N - 1, N, N + 1, 2 ** 255, 2 ** 256 - 1, 2 ** 256 + 5, 2 ** 300 + 7] + [rng.randrange(1, N) for _ in range(ctx.n(4, 60))]
+    for k in scalars:
+        ctx.count('gen-pt_mul')
+        yield Case(f'pt_mul {pts(rng.choice(P[:6]))} {k}', 'g', nontrivial=True, tag='gen-curve')
+    yield Case(f'pt_mul 0 {rng.randrange(1, N)}', 'g', nontrivial=True, tag='gen-curve')
+    xs = [0, 1, 2, 5, P_FIELD - 1, P_FIELD, P_FIELD + 1, 2 ** 256 - 1] + [Q[0] for Q in P[:8]] + [rng.randrange(0, P_FIELD) for _ in range(ctx.n(10, 200))]
+    for x in xs:
+        ctx.count('gen-lift_x')
+        yield Case(f'lift_x {x}', 'g', nontrivial=True, tag='gen-curve')
+    for Q in [None] + P[:8] + [neg(Q) for Q in P[:4]]:
+        yield Case(f'even_y {pts(Q)}', 'g', nontrivial=True, tag='gen-curve')
 
 
 def impl(op, a, ctx):
@@ -120,6 +157,13 @@ def impl(op, a, ctx):
         except Exception:
             lib = False
         return f'ok {1 if r else 0}' + ('' if lib == r else ' libsecp256k1-disagrees')
+    if op in ('pt_add', 'pt_mul', 'lift_x', 'even_y'):
+        def pt():
+            return None if F.nat() == 0 else (F.int(), F.int())
+        if op == 'pt_add': return 'ok ' + pts(schnorr.point_add(pt(), pt()))
+        if op == 'pt_mul': return 'ok ' + pts(schnorr.point_mul(pt(), F.int()))
+        if op == 'lift_x': return 'ok ' + pts(schnorr.lift_x(F.int()))
+        return 'ok ' + ('1' if schnorr.has_even_y(pt()) else '0')
     if op == 'full_pubkey':
         return 'ok ' + hx(schnorr.full_pubkey_gen(F.bytes()))
     raise ValueError(op)
